@@ -33,6 +33,8 @@ func c12Ops() []histOp {
 		{"replace-key-same-size", "P.ra = %f; T = " + BI("keys", "P") + "; " + del("P", `"ra"`) + " P.rb%n = %f;", false},
 		{"replace-key-same-size-via-alias", "Q.sa = %f; T = " + BI("values", "Q") + "; delvia(Q, \"sa\"); setvia(Q, %f); Q.sb%n = %f;", false},
 		{"swap-two-keys", "R.t1 = %f; R.t2 = %f; T = " + BI("keys", "R") + "; " + del("R", `"t1"`) + " " + del("R", `"t2"`) + " R.u1%n = %f; R.u2%n = %f;", false},
+		{"chained-property-writes", "P.c1 = Q.c2 = R.c3 = %f; " + Print("P.c1 + Q.c2 + R.c3"), false},
+		{"property-write-as-value", "T = (P.pv = %f); " + Print("T") + " " + Print("[Q.pv2 = %f, (R.pv3 = {in: %f}).in]") + " T = nil;", false},
 		{"read-after-write", "P.k = %f; " + Print("P.k"), false}, {"read-nested", "Q.sub2 = {d: %f}; " + Print("Q.sub2.d"), false},
 		// faulting steps
 		{"read-absent", Print("P.absent"), true}, {"read-on-nil", Print("T.k"), true}, {"read-on-array", Print("arr.k"), true}, {"read-on-number", Print("(5).k"), true}, {"read-on-string", Print(`"s".k`), true},
